@@ -9,8 +9,8 @@
 //     literal "-", os.Stdout, os.Stdin, log.SetCLILogger, or calls one of the stream helpers
 //     (streamInOutForOperation, withStdinReadSeeker, readSeekerFromStdin) directly.  Facts per row:
 //     ndash      number of "-" literals in the body (function literals included)
-//     nreject    number of those that are the condition of an `if` whose body is a lone
-//     `return …, <non-nil error>` (the command refuses "-")
+//     nreject    number of those that are (a disjunct of) the condition of an `if` whose body is a
+//     lone `return …, <non-nil error>` (the command refuses "-") or a lone `return nil` (no-op guard)
 //     stream_direct / stdin_direct   calls streamInOutForOperation / one of the two stdin helpers
 //     reach_stream / reach_stdin     … or reaches one through calls to functions of pkg/cli
 //     stdout     mentions os.Stdout;  stdout_guarded: every mention is dominated by a
@@ -367,11 +367,24 @@ func classifyDash(x *fn, stack []ast.Node) {
 		if p.Op != token.EQL && p.Op != token.NEQ {
 			die("%s: \"-\" under operator %s", pos(lit), p.Op)
 		}
-		// rejection: if <cond mentioning only this comparison> { return …, err }
-		if p.Op == token.EQL && len(stack) >= 3 {
-			if is, ok := stack[len(stack)-3].(*ast.IfStmt); ok && is.Cond == ast.Expr(p) && is.Else == nil && len(is.Body.List) == 1 {
-				if r, ok := is.Body.List[0].(*ast.ReturnStmt); ok && len(r.Results) >= 1 && isErrExpr(r.Results[len(r.Results)-1]) {
-					x.NReject++
+		// rejection / no-op guard: if A == "-" [|| …] { return …, <error> }  or  { return nil }
+		if p.Op == token.EQL {
+			top := len(stack) - 2
+			for top-1 >= 0 {
+				if be, ok := stack[top-1].(*ast.BinaryExpr); ok && be.Op == token.LOR {
+					top--
+					continue
+				}
+				break
+			}
+			if top-1 >= 0 {
+				if is, ok := stack[top-1].(*ast.IfStmt); ok && ast.Node(is.Cond) == stack[top] && is.Else == nil && len(is.Body.List) == 1 {
+					if r, ok := is.Body.List[0].(*ast.ReturnStmt); ok && len(r.Results) >= 1 {
+						last := r.Results[len(r.Results)-1]
+						if isErrExpr(last) || (len(r.Results) == 1 && isNil(last)) {
+							x.NReject++
+						}
+					}
 				}
 			}
 		}
